@@ -53,6 +53,18 @@ NEEDS.update({
  "C19r2-A": "two assertions on the same credential, the second starting while the first waits in its user prompt: map-then-gate vs gate-then-map lock order deadlocks",
  "C19r2-B": "the same authenticator object asserting again after another authenticator asserted in between (A, B, A): the counter comes from per-authenticator memory, a value is reused",
 })
+NEEDS.update({
+ "C06r2-A": "CTAP-level make_credential carrying hmac-secret (or prf) together with an hmac-secret-mc input on an authenticator with evaluation at creation enabled: the stored secret itself is returned in the signed extension output",
+ "C06r2-B": "U2F register with an empty key handle: the private scalar is used as key handle (and stored as credential id)",
+ "C11r2-A": "authenticatorSelection absent (not merely all-default): rk = whatever the authenticator supports",
+ "C11r2-B": "assertion without UV on a credential that stores a user handle: the handle is withheld",
+ "C17r2-A": "authenticate frame with a key handle of 191..255 bytes: the end index is computed in u8 and overflows",
+ "C17r2-B": "authentication with non-UP flag bits: the encoded presence byte is masked while the signature covers the full byte",
+ "C18r2-A": "getInfo through the trait, then the store's or the user-validation method's capabilities change, then getInfo through the trait again: the first answer is cached",
+ "C18r2-B": "credential with a counter + a store that fails (or lies) on one more lookup after the counter update: the trait path re-reads the counter and errs where the direct path succeeds",
+})
+# changes whose description showed that the generator could not reach them; strengthened before their first run
+PRE_STRENGTHENED = {"C06r2-A", "C06r2-B"}
 results = {}
 for f in sorted(glob.glob("/tmp/amut*.out.json")) + sorted(glob.glob("/tmp/bmut*.out.json")):
     for r in json.load(open(f)):
@@ -81,7 +93,8 @@ for name, needs in sorted(NEEDS.items()):
         "needs_to_manifest": needs,
         "confirmed_by_me": "tools/confirm_mutant.sh in a scratch worktree under /tmp: demonstration passes on the unmodified tree; with patch.diff applied the unedited workspace suite passes and the demonstration fails",
         "how_checked": "git -C /repo apply patch.diff; ./check <every claimed ID> --tier quick; git -C /repo checkout -- .   (tools/campaign.py)",
-        "caught_on_first_run": bool(first and first["caught_by_expected"]),
+        "caught_on_first_run": bool(first and first["caught_by_expected"]) and name not in PRE_STRENGTHENED,
+        "note": ("the generator could not reach this change when it arrived (no hmac-secret-mc input / no empty U2F key handle in C06 runs); it was extended before the first run, so the first recorded round is already the strengthened one" if name in PRE_STRENGTHENED else None),
         "caught_now": bool(last and last["caught_by_expected"]),
         "clauses_now": (last or {}).get("fired", {}).get(pid, {}).get("clauses"),
         "also_fired": {k: v.get("clauses") for k, v in (last or {}).get("fired", {}).items() if k != pid},
